@@ -253,10 +253,14 @@ def _get_subcircuits(
 
             if oper_type != 'NOT':
                 circuit_size += 1
-            is_output: bool = node in outputs_set
+            # a gate of the cone is its output when something outside the cone reads
+            # it: an output of the circuit, a gate that is not in the cone, a leaf of
+            # the cut (a leaf may itself read gates of the cone), or nothing at all
+            # (a gate without users keeps its place, like any other observed gate).
+            is_output: bool = node in outputs_set or not users
             if not is_output:
                 for user in users:
-                    if user not in cut_nodes[cut]:
+                    if user not in cut_nodes[cut] or user in inputs:
                         is_output = True
                         break
             if is_output:
@@ -555,11 +559,12 @@ def minimize_subcircuits(
         _rename_subcircuit_gates(
             new_circuit, new_subcircuit, input_labels_mapping, output_labels_mapping
         )
-        new_circuit.replace_subcircuit(
-            new_subcircuit, input_labels_mapping, output_labels_mapping
-        )
-
         try:
+            # a leaf of the cut may read an output of the cone, so the smaller cone
+            # can close a cycle through it: replace_subcircuit refuses that itself.
+            new_circuit.replace_subcircuit(
+                new_subcircuit, input_labels_mapping, output_labels_mapping
+            )
             check_circuit_has_no_cycles(new_circuit)
         except CircuitValidationError:
             logger.debug("Circuit becomes cyclic")
